@@ -17,8 +17,10 @@ RFC 1071 factors into four facts about the code, each decided from the source:
     tracer's addresses; the Paris pair stores the sequence in the checksum field and compensates in the two payload octets.
 From R1–R4: the value written is ¬(Σ words with the checksum word as zero, end-around carry), hence the datagram with the checksum inserted sums
 to 0xFFFF.
-Not decided: u32 accumulator overflow for inputs beyond the packet sizes the tracer uses (C04 allow entries bound those); the Paris compensation
-arithmetic as a numerical identity (only its structure, R5); `checksum()` of an empty slice returns 0 (no caller passes one: views have a minimum size).
+ R6 the Paris swap: a one's-complement sum is invariant under exchanging two aligned 16-bit words; the UDP checksum field is word 3 and the payload
+    is written and read at octet 8 (word 4), so C11.R3 / R6 (imported: checksum ← sequence, payload ← previous checksum, payload was the sequence, all
+    big-endian) exchange exactly two words of a datagram that verified — it still sums to 0xFFFF and carries the sequence in the checksum field.
+Not decided: u32 accumulator overflow for inputs beyond the packet sizes the tracer uses (C04 allow entries bound those); `checksum()` of an empty slice returns 0 (no caller passes one: views have a minimum size).
 """
 import json
 import os
@@ -441,4 +443,36 @@ def _r4_r5(chk, prog):
         chk.fail('R4', 'finalize:callers', fn_loc(ff), 'finalize_checksum is called from %s' % callers, key='R4|callers')
 
     # ---- R5 ---------------------------------------------------------------------------------------------------
-    run_sub(chk, 'c11', 'C11.', {'R3'})
+    run_sub(chk, 'c11', 'C11.', {'R3', 'R6'})
+
+    # ---- R6: the Paris swap keeps the datagram verifying ---------------------------------------------------------
+    # The one's-complement sum is a sum of 16-bit aligned words, hence invariant under exchanging two of them. C11.R3 / R6 (imported) decide that the
+    # Paris pair writes be(sequence) where the checksum was and be(checksum) where the two payload octets be(sequence) were; what remains is
+    # that both places are whole aligned words of the UDP datagram: checksum field at a bit offset divisible by 16, payload written and read at one even octet offset.
+    chk.rule('R6', 'the Paris swap exchanges two aligned 16-bit words (sum invariant)', floor=3)
+    lay = json.load(open(SPEC))['trippy_packet::udp::UdpPacket']
+    off, width = lay['fields']['checksum']
+    if off % 16 == 0 and width == 16:
+        chk.ok('R6', 'checksum-word', 'UDP checksum field = word %d of the datagram' % (off // 16))
+    else:
+        chk.fail('R6', 'checksum-word', 'tsa/spec/rfc_layout.json', 'the UDP checksum field is not an aligned 16-bit word', key='R6|checksum-word')
+    e6 = Engine(prog, inline_depth=1)
+    offs = {}
+    for nm, rx in (('set_payload', r'Range\((\d+), Add\(\1, len\(vals\)\)\)'), ('payload', r'RangeFrom\((\d+)\)')):
+        f6 = prog.find(r'udp::UdpPacket::%s$' % nm)
+        chk.fn_seen(f6['path'])
+        st6 = St()
+        o6 = e6.run(f6, [e6.sym_ref(st6, 'self')] + ([('sym', 'vals')] if nm == 'set_payload' else []), st6)
+        rng = {vshow(c[7][1]) for o in o6 if o.kind == 'return' for c in user_calls(o) if re.search(r'index::index(_mut)?$', short(c[1]))}
+        m6 = [re.fullmatch(rx, r_) for r_ in rng]
+        if rng and all(m6) and len({m.group(1) for m in m6}) == 1:
+            offs[nm] = int(m6[0].group(1))
+        else:
+            chk.fail('R6', 'payload-offset:' + nm, fn_loc(f6), 'UdpPacket::%s addresses the payload as %s: expected one constant octet offset' % (nm, sorted(rng)), key='R6|payload-offset|' + nm)
+    if len(offs) == 2:
+        if offs['set_payload'] == offs['payload'] == lay['min'] and offs['payload'] % 2 == 0:
+            chk.ok('R6', 'payload-offset', 'UDP payload is written and read at octet %d = the RFC 768 header size, a word boundary' % offs['payload'])
+            chk.ok('R6', 'swap', 'words %d and %d exchanged (C11.R3: checksum ← sequence, payload ← previous checksum, both big-endian; C11.R6: payload was be(sequence)): Σ unchanged' % (off // 16, offs['payload'] // 2))
+        else:
+            chk.fail('R6', 'payload-offset', fn_loc(prog.find(r'udp::UdpPacket::set_payload$')), 'UDP payload written at octet %d and read at %d (header size %d): the Paris compensation would not land on the word that held the sequence' % (
+                offs['set_payload'], offs['payload'], lay['min']), key='R6|payload-offset')
